@@ -400,17 +400,19 @@ def run_shard(shard: dict, ctx, res, only=None) -> None:
                                   file_nbits=disk_nbits(nb, n_eff, cps), kind="file")
 
                 guard("Filterbank.extract_bands", [cs, nch, cps, bsz, start], f_eb)
-            for nsub, dmv in [(n_, d_) for n_ in (1, 2, 4, 8) for d_ in (dm_pos, 0.0)]:
+            for nsub, dmv in [(n_, d_) for n_ in (1, 2, 4, 8) for d_ in (dm_pos, 0.0, -dm_pos)]:
                 def f_sb(nsub=nsub, start=start, rk=rk, n_eff=n_eff, dmv=dmv):
                     d = np.asarray(H.get_dmdelays(dmv))
-                    if d.min() < 0 or d.max() >= n_eff:
+                    span = int(d.max()) - int(d.min())
+                    if (d.min() < 0 and d.max() > 0) or span >= n_eff:
                         return
                     fil.subband(dmv, nsub, outfile_name=out, **rk)
                     h, nb = hdr_of(out)
                     sf = C // nsub
-                    ns_o = n_eff - int(d.max())
+                    ns_o = n_eff - span
+                    # negative delays: the product starts -min(delay) samples after `start` (time measured at the first channel)
                     chk.check("Filterbank.subband", [nsub, start, dmv], h, shape=(ns_o, nsub), src=[list(range(i * sf, (i + 1) * sf)) for i in range(nsub)],
-                              start=start, dm=dmv, file_nbits=disk_nbits(nb, ns_o, nsub), kind="file")
+                              start=start - min(0, int(d.min())), dm=dmv, file_nbits=disk_nbits(nb, ns_o, nsub), kind="file")
 
                 guard("Filterbank.subband", [nsub, start, dmv], f_sb)
 
